@@ -105,6 +105,7 @@ World::World(const Plan& p)
     plife = static_cast<uint64_t>(plan.cfgGet("plife", 0));
     clockJumpSeed = static_cast<uint64_t>(plan.cfgGet("clockjump", 0));
     shareInput = plan.cfgGet("shareinput", 0) != 0;
+    cmpFeedback = plan.cfgGet("cmpfb", 0) != 0;
     if (plan.cfgGet("lit", 0))
         fault("plan-field-set-to-a-source-literal");
     if (clockJumpSeed)
@@ -658,6 +659,101 @@ void World::syncClock()
     simClockSet(now * 1000ULL + clockOffsetNs);
 }
 
+// Frames derived from what the decoder compared this frame's bytes with (edgecount.cpp): where the observed operand of a
+// comparison with a constant is found in the frame (big- or little-endian, at its own width or as a 16-bit field widened
+// for the comparison), a copy of the frame is queued in which those bytes spell the constant. Bounded: 3 generations,
+// 48 derived frames per run, 2 positions per operand. The derived frame is judged by the same oracles as any other
+// frame a hostile or foreign peer may send (the reference decoder works from the bytes).
+void World::deriveFromComparisons(const InFlight& f, const std::vector<cmpfb::Operand>& ops)
+{
+    const Bytes& in = f.bytes;
+    int made = 0;
+    for (auto& o : ops)
+    {
+        if (derivedLeft <= 0 || made >= 10)
+            break;
+        if (o.observed == in.size() && o.constant >= 8 && o.constant <= 70000 && o.width >= 4)
+        {
+            // the buffer SIZE was compared with a constant: the same frame cut, or zero-padded, to exactly that size
+            InFlight* d = new InFlight();
+            d->bytes = in;
+            d->bytes.resize(static_cast<size_t>(o.constant), 0);
+            d->time = now;
+            d->seq = seqNo++;
+            d->frameId = nextFrameId++;
+            d->pristine = false;
+            d->op = f.op;
+            d->node = f.node;
+            d->depth = f.depth + 1;
+            queue.push(d);
+            --derivedLeft;
+            ++made;
+            fault("frame-resized-to-a-compared-size");
+            continue;
+        }
+        struct Enc
+        {
+            int width;
+            bool be;
+        };
+        std::vector<Enc> encs;
+        if (o.width == 1)
+            encs.push_back({1, true});
+        else
+        {
+            encs.push_back({o.width, true});
+            encs.push_back({o.width, false});
+            if (o.width > 2 && o.observed <= 0xFFFF && o.constant <= 0xFFFF)
+                encs.push_back({2, true});
+            if (o.width > 4 && o.observed <= 0xFFFFFFFFULL && o.constant <= 0xFFFFFFFFULL)
+                encs.push_back({4, true});
+        }
+        for (auto& e : encs)
+        {
+            if (in.size() < static_cast<size_t>(e.width))
+                continue;
+            uint8_t pat[8], rep[8];
+            for (int i = 0; i < e.width; ++i)
+            {
+                const int sh = e.be ? 8 * (e.width - 1 - i) : 8 * i;
+                pat[i] = static_cast<uint8_t>(o.observed >> sh);
+                rep[i] = static_cast<uint8_t>(o.constant >> sh);
+            }
+            // positions; a single byte is only followed up when it is rare in the frame
+            std::vector<size_t> pos;
+            for (size_t p = 0; p + static_cast<size_t>(e.width) <= in.size() && pos.size() < 5; ++p)
+                if (memcmp(in.data() + p, pat, static_cast<size_t>(e.width)) == 0)
+                    pos.push_back(p);
+            if (pos.empty() || (e.width == 1 && pos.size() > 3))
+                continue;
+            if (pos.size() > 2)
+                pos.resize(2);
+            for (size_t p : pos)
+            {
+                if (derivedLeft <= 0 || made >= 10)
+                    break;
+                InFlight* d = new InFlight();
+                d->bytes = in;
+                memcpy(d->bytes.data() + p, rep, static_cast<size_t>(e.width));
+                d->time = now;
+                d->seq = seqNo++;
+                d->frameId = nextFrameId++;
+                d->pristine = false;
+                d->op = f.op;
+                d->node = f.node;
+                d->depth = f.depth + 1;
+                queue.push(d);
+                --derivedLeft;
+                ++made;
+                fault("frame-derived-from-comparison-operands");
+                if (d->depth >= 2)
+                    probe("second-generation-derived-frame");
+            }
+            break;  // one encoding per operand is enough
+        }
+    }
+}
+
 void World::deliver(InFlight& f)
 {
     syncClock();
@@ -691,7 +787,13 @@ void World::deliver(InFlight& f)
             probe("receive-buffer-at-unaligned-address");
     }
     const bool passNull = (n == 0 && plan.cfgGet("nullbuf", 0));
+    std::vector<cmpfb::Operand> cmpOps;
+    if (cmpFeedback && f.depth < 3 && derivedLeft > 0 && n >= 8 && f.allocFail < 0)
+        cmpfb::arm(&cmpOps);
     std::vector<lib::PacketRef> out = dec->decode(passNull ? nullptr : buf, n, f.allocFail);
+    cmpfb::disarm();
+    if (!cmpOps.empty())
+        deriveFromComparisons(f, cmpOps);
     const uint64_t edges = dec->lastCallEdges();
     if (f.allocFail >= 0)
     {
